@@ -526,6 +526,62 @@ func c02R4(c *Ctx) {
 		c.check(okAt(body.Block(), 0), "R4", "pattern-gate", p.InstrPos(body), "body runs only when the pattern is absent or truthy", "the body evaluation can be reached on a path where neither `Pattern == nil` nor `isTruthy(pattern value)` was established")
 		// and the other way round: a truthy / absent pattern is not skipped — the only edges that leave the
 		// iteration without evaluating the body are the falsy pattern, next, and errors (R3, C11/R2)
+		{
+			falsy := func(fs factSet) bool {
+				for f := range fs {
+					if f.truth {
+						continue
+					}
+					if isTruthyOfPattern(f.cond) {
+						return true
+					}
+					if phi, ok := f.cond.(*ssa.Phi); ok {
+						all := len(phi.Edges) > 0
+						for _, e := range phi.Edges {
+							if _, isC := constBool(e); !isC && !isTruthyOfPattern(e) {
+								all = false
+							}
+						}
+						if all {
+							return true
+						}
+					}
+				}
+				return false
+			}
+			skipped := ""
+			for _, l := range rangeLoops(er, func(v ssa.Value) bool { return p.Render(v) == "rules" }) {
+				if !l.Body.Dominates(body.Block()) {
+					continue
+				}
+				seen := map[*ssa.BasicBlock]bool{l.Body: true}
+				work := []*ssa.BasicBlock{l.Body}
+				for len(work) > 0 {
+					b := work[len(work)-1]
+					work = work[:len(work)-1]
+					if b == body.Block() {
+						continue
+					}
+					for _, s := range b.Succs {
+						if falsy(F.OnEdge(b, s)) {
+							continue
+						}
+						if s == l.Header {
+							skipped = p.Pos(b.Instrs[len(b.Instrs)-1].Pos())
+							if skipped == "" || skipped == "-" {
+								skipped = "block " + b.String()
+							}
+							continue
+						}
+						if !seen[s] {
+							seen[s] = true
+							work = append(work, s)
+						}
+					}
+				}
+			}
+			c.check(skipped == "", "R4", "matched-rule-body-not-skipped", p.InstrPos(body), "the next rule is reached only through the body evaluation or a falsy pattern", "the loop over the rules can go on to the next rule (from "+skipped+") without evaluating the body of a rule whose pattern is absent or truthy: that rule's action is replaced or dropped")
+		}
 		c.check(p.Render(body.Call.Args[1]) == "rules[i@rules].Body", "R4", "body-of-ranged-rule", p.InstrPos(body), "the ranged rule's body", "evalRules evaluates "+p.Render(body.Call.Args[1]))
 	}
 	// evalPatternRules
